@@ -96,6 +96,9 @@ pub fn seeded_input(rng: &mut Rng, fmt: Fmt, tag: u64) -> (Vec<u8>, &'static str
         gen::insert_foreign_token(rng, &mut b);
         return (b, "foreign-token");
     }
+    if fmt == Fmt::Fastq && rng.chance(1, 30) {
+        return (gen::qual_short_by_next_record(rng, tag), "qual-short-by-next-record");
+    }
     match rng.below(8) {
         0 | 1 | 2 => (gen::wf(rng, fmt, &opts).2, "wf"),
         3 | 4 => {
